@@ -22,7 +22,7 @@ theorem zero_padding_threshold_relative : Gen.C08.zero_padding_threshold.homogen
 theorem mask_seed_eq (u : Bool) : Gen.C08.maskSeed u = seedOf u [.filename] := by cases u <;> decide
 theorem body_seed_eq (u : Bool) : Gen.C08.bodySeed u = seedOf u [.filename] := by cases u <;> decide
 theorem split_seed_eq (u : Bool) : Gen.C08.splitSeed u = seedOf u [.filename, .sliceNo] := by cases u <;> decide
-theorem crop_seed_eq : Gen.C08.crop_seed_fields = [.filename] := by decide
+theorem crop_seed_eq : Gen.C08.crop_seed_fields = cropSeedFields := by decide
 
 /-- the generated table is, literally, the list normal form of the modelled builder (`rfl`): the normal
 form does not depend on how the source groups unconditional `mri_transforms += [...]` statements -/
@@ -34,5 +34,27 @@ theorem build_supervised_eq (c : Config) : Gen.C08.build_supervised c = buildSup
 
 theorem build_eq (c : Config) : Gen.C08.build c = build c :=
   (build_gen_nf c).trans (build_nf c).symm
+
+/-- **the stage programs**: what every transform class reads, writes, guards on and applies — translated from
+the `forward` / `__call__` bodies — is, stage by stage and for every constructor argument, the modelled program.
+A class that starts reading another key, normalises a different key set, divides without the guard
+(`.divUnsafe` instead of `.safeDiv`), drops a `require`, … changes `Gen.C08.compile` and this no longer checks. -/
+theorem compile_eq (s : Stage) : Gen.C08.compile s = compile s := by
+  cases s with
+  | cropKspace center useSeed => cases center <;> rfl
+  | createSamplingMask fromCrop seed returnAcs => cases fromCrop <;> cases returnAcs <;> rfl
+  | estimateSensitivityMap kk ty gaussian => cases ty <;> cases gaussian <;> rfl
+  | computeScalingFactor nk pct sfk => cases nk <;> cases pct <;> rfl
+  | computeImage kk tk r => cases r <;> rfl
+  | maskSplitter ty keepAcs seed kk => cases keepAcs <;> rfl
+  | _ => rfl
+
+/-- hence the composed programs coincide -/
+theorem program_eq (c : Config) : (Gen.C08.build c).flatMap Gen.C08.compile = program (build c) := by
+  rw [build_eq]
+  unfold program
+  congr 1
+  funext s
+  exact compile_eq s
 
 end DirectVerif.Bridge.C08
